@@ -1876,7 +1876,7 @@ func GetByte(vm *VM, streamOrAlias, inByte Term, k Cont, env *Env) *Promise {
 	case Variable:
 		break
 	case Integer:
-		if b < 0 || b > 255 {
+		if b < -1 || b > 255 { // An in-byte is a byte or -1 for the end of the stream.
 			return Error(typeError(validTypeInByte, inByte, env))
 		}
 	default:
@@ -1910,7 +1910,7 @@ func GetChar(vm *VM, streamOrAlias, char Term, k Cont, env *Env) *Promise {
 	case Variable:
 		break
 	case Atom:
-		if len([]rune(c.String())) != 1 {
+		if c != atomEndOfFile && len([]rune(c.String())) != 1 { // An in-character is a character or end_of_file.
 			return Error(typeError(validTypeInCharacter, char, env))
 		}
 	default:
@@ -1948,7 +1948,7 @@ func PeekByte(vm *VM, streamOrAlias, inByte Term, k Cont, env *Env) *Promise {
 	case Variable:
 		break
 	case Integer:
-		if b < 0 || b > 255 {
+		if b < -1 || b > 255 { // An in-byte is a byte or -1 for the end of the stream.
 			return Error(typeError(validTypeInByte, inByte, env))
 		}
 	default:
@@ -1990,7 +1990,7 @@ func PeekChar(vm *VM, streamOrAlias, char Term, k Cont, env *Env) *Promise {
 	case Variable:
 		break
 	case Atom:
-		if len([]rune(c.String())) != 1 {
+		if c != atomEndOfFile && len([]rune(c.String())) != 1 { // An in-character is a character or end_of_file.
 			return Error(typeError(validTypeInCharacter, char, env))
 		}
 	default:
